@@ -3,6 +3,7 @@ import Isotp.Sock
 import Isotp.Threaded
 import Isotp.Spec.Segment
 import Isotp.Net
+import Isotp.Proofs.Segment
 /-
   Line-protocol driver: reads one operation per line on stdin, executes it on the model,
   prints exactly one output line per input line. See harness/proto.md.
@@ -398,6 +399,13 @@ def step (d : Drv) (line : String) : Drv × String :=
       let c : Spec.TxCfg := { txDl := dl, minLen := parseOptNat minlen, padding := parseOptNat pad, pre := pr }
       (d, " ".intercalate ((Spec.segment c data).map hexOf))
     | _, _, _ => (d, "bad-op")
+  | "specreasm" :: prelen :: frames =>
+    -- the Lean reference decoder (`Spec.reassemble`, proved to invert `Spec.segment` and to decode every
+    -- `Spec.WellFormed` stream): the foreign streams the C03 scenarios feed must decode to their payload
+    match prelen.toNat?, frames.mapM parseHex with
+    | some pl, some fs =>
+      (d, match Spec.reassemble pl fs with | some p => hexOf p | none => "none")
+    | _, _ => (d, "bad-op")
   | [] => (d, "")
   | _ => (d, "bad-op")
 
